@@ -170,15 +170,23 @@ func decodeRecordBatches(data []byte, topic string, partition int32) ([]Record, 
 	const frameHeaderLen = 12
 	var records []Record
 	offset := 0
-	for offset+frameHeaderLen <= len(data) {
-		batchLen := int(binary.BigEndian.Uint32(data[offset+8 : offset+12]))
+	// The batch length field is written by the producer and stored unchanged.
+	// A frame that is empty or does not fit must fail the whole segment:
+	// stopping quietly would drop every batch behind it while the caller
+	// treats the segment as fully decoded.
+	for offset < len(data) {
+		remaining := len(data) - offset
+		if remaining < frameHeaderLen {
+			return nil, fmt.Errorf("%d trailing bytes after last record batch at segment body offset %d", remaining, offset)
+		}
+		batchLen := int64(int32(binary.BigEndian.Uint32(data[offset+8 : offset+12])))
 		if batchLen <= 0 {
-			break
+			return nil, fmt.Errorf("invalid record batch length %d at segment body offset %d", batchLen, offset)
 		}
-		frameLen := frameHeaderLen + batchLen
-		if offset+frameLen > len(data) {
-			break
+		if batchLen > int64(remaining-frameHeaderLen) {
+			return nil, fmt.Errorf("record batch of length %d at segment body offset %d exceeds segment bounds", batchLen, offset)
 		}
+		frameLen := frameHeaderLen + int(batchLen)
 		batch := data[offset : offset+frameLen]
 		batchRecords, err := decodeBatchRecords(batch, topic, partition)
 		if err != nil {
